@@ -647,6 +647,22 @@ class Summariser:
         idi = self._callable_idiom(node, st)
         if idi:
             return [(st, ("normal",))]
+        # `if [not] self.helper(...):` with a branching helper of the class: the helper's exits fork the path first, then the test is decided
+        # per exit (the same thing as `t = self.helper(...)` followed by `if [not] t:`)
+        tcall = node.test.operand if isinstance(node.test, ast.UnaryOp) and isinstance(node.test.op, ast.Not) else node.test
+        if isinstance(tcall, ast.Call):
+            multi = self.multi_inline(tcall, st)
+            if multi:
+                out = []
+                for s_, v_ in multi:
+                    tmp = "__helper_result_%d" % getattr(node, "lineno", 0)
+                    s_.env[tmp] = v_
+                    test2 = ast.copy_location(ast.Name(id=tmp, ctx=ast.Load()), tcall)
+                    if tcall is not node.test:
+                        test2 = ast.copy_location(ast.UnaryOp(op=ast.Not(), operand=test2), node.test)
+                    node2 = ast.copy_location(ast.If(test=test2, body=node.body, orelse=node.orelse), node)
+                    out.extend(self.s_If(node2, s_))
+                return out
         c = self.expr(node.test, st)
         if N.is_const(c):
             return self.block(node.body if c[2] else node.orelse, st)
@@ -764,6 +780,23 @@ class Summariser:
         self.assign(target, v, st, node)
 
     def s_While(self, node, st):
+        # `while [not] self.helper(...): body` with a branching helper of the class is `while True: if not (...): break; body`
+        tcall = node.test.operand if isinstance(node.test, ast.UnaryOp) and isinstance(node.test.op, ast.Not) else node.test
+        if isinstance(tcall, ast.Call) and not node.orelse and not getattr(node, "_desugared", False):
+            probe = st.fork()
+            saved_pending = self.pending
+            self.pending = []
+            try:
+                cand = self.multi_inline(tcall, probe)
+            finally:
+                self.pending = saved_pending
+            if cand:
+                neg = node.test.operand if tcall is not node.test else ast.copy_location(ast.UnaryOp(op=ast.Not(), operand=node.test), node.test)
+                brk = ast.copy_location(ast.If(test=neg, body=[ast.copy_location(ast.Break(), node)], orelse=[]), node)
+                loop = ast.copy_location(ast.While(test=ast.copy_location(ast.Constant(value=True), node), body=[brk] + list(node.body), orelse=[]), node)
+                loop._desugared = True
+                ast.fix_missing_locations(loop)
+                return self.s_While(loop, st)
         lid = st.tick("loop")
         c0 = self.expr(node.test, st)
         self.emit(st, "LOOP", {"lid": lid, "iter": c0, "kind": "while"}, node)
@@ -1365,7 +1398,9 @@ class Summariser:
                 return N.NONE
         if base == ("param", "self") and self.self_cls and M.resolve(self.self_cls, meth) is not None:
             if not (meth.startswith("_emit") or meth.startswith("_compile") or meth in self.POSITIONAL or meth.startswith("__")):
-                r = self.inline(M.resolve(self.self_cls, meth), (base,) + args, kws, node, st, bound=True)
+                tgt = M.resolve(self.self_cls, meth)
+                is_static = any(isinstance(d, ast.Name) and d.id == "staticmethod" for d in tgt.node.decorator_list)
+                r = self.inline(tgt, args if is_static else (base,) + args, kws, node, st, bound=True)
                 if r is not None:
                     return r
             t = ("selfcall", meth, args, kws)
